@@ -68,6 +68,14 @@ func isNilable(t types.Type) bool {
 	return false
 }
 
+// derefType strips one pointer level.
+func derefType(t types.Type) types.Type {
+	if p, ok := t.Underlying().(*types.Pointer); ok {
+		return p.Elem()
+	}
+	return t
+}
+
 func isErrorType(t types.Type) bool {
 	return types.Identical(t, types.Universe.Lookup("error").Type())
 }
